@@ -83,6 +83,10 @@ def _check(role, where, cut, kind):
         if after > bound:
             v.append((f"{tag}:slow", f"{role}, peer silent after offset {cut} ({where}): everything ended only {after:.2f}s after the peer went silent (bound {bound:.1f}s)"))
         limits = {"associate": T["connection"] + T["acse"] + MARGIN, "echo": T["dimse"] + MARGIN, "release": T["acse"] + MARGIN, "abort": T["acse"] + MARGIN}
+        if kind == "chatter":
+            # the peer keeps sending after the local abort, so the local side legitimately waits for
+            # the ARTIM timer (= ACSE timeout) before it closes the connection itself
+            limits = {k: v + T["acse"] for k, v in limits.items()}
         for call, t0, t1 in ctx["t_calls"]:
             if t1 - t0 > limits[call]:
                 v.append((f"{tag}:call-{call}-slow", f"{role}, peer silent after offset {cut} ({where}): {call}() took {t1 - t0:.2f}s, limit {limits[call]:.1f}s"))
@@ -105,6 +109,42 @@ def _case(role, cut, kind="silent", dribble=None):
     return explore.execute(scn, ())
 
 
+CHATTER_PDU = P.pdata(1, b"\x00\x00\x00\x00", command=False, last=False)
+
+
+def _chatter_script(role, trigger, straddle, interval=0.2, duration=16.0):
+    """The peer brings the local side into a state in which it waits for the
+    peer (an unanswered request, Sta13 after a local abort / release response)
+    and then never stops talking: a P-DATA PDU every `interval` seconds, whole
+    or cut so that every segment ends 3 bytes into the next PDU."""
+    sc = []
+    if role == "requestor":
+        sc += [("expect", 1), ("send", P.assoc_ac()), ("expect", 2)]  # accept, receive the C-ECHO-RQ, never answer it
+    elif trigger == "second-rq":
+        sc += [("send", P.assoc_rq()), ("expect", 1), ("send", P.assoc_rq())]  # AA-8: provider abort, Sta13
+    else:  # released
+        sc += [("send", P.assoc_rq()), ("expect", 1), ("send", P.RELEASE_RQ), ("expect", 2)]  # AR-4: Sta13 awaiting close
+    sc.append(("mark",))
+    n = int(duration / interval)
+    stream = CHATTER_PDU * (n + 1)
+    L = len(CHATTER_PDU)
+    for i in range(n):
+        lo = 0 if i == 0 else i * L + (3 if straddle else 0)
+        hi = (i + 1) * L + (3 if straddle else 0)
+        sc.append(("send", stream[lo:hi]))
+        sc.append(("sleep", interval))
+    sc.append(("silent",))
+    return sc
+
+
+def _chatter(role, trigger, straddle):
+    scn = rawpeer.RawPeerScenario(role, _chatter_script(role, trigger, straddle), name="c08-chatter", patience=60.0)
+    scn.max_time = 60.0
+    scn.max_steps = 400000
+    scn.check = _check(role, (trigger, "chatter-" + ("straddling" if straddle else "whole")), -2, "chatter")
+    return explore.execute(scn, ())
+
+
 def _blackhole():
     """peer never completes connect()"""
     scn = rawpeer.RawPeerScenario("requestor", [("silent",)], name="c08-blackhole")
@@ -122,7 +162,10 @@ def _blackhole():
 def _run(cases):
     out = []
     for role, cut, kind, dr in cases:
-        r = _blackhole() if kind == "blackhole" else _case(role, cut, kind, dr)
+        if kind == "chatter":
+            r = _chatter(role, cut, dr)
+        else:
+            r = _blackhole() if kind == "blackhole" else _case(role, cut, kind, dr)
         out.append(((role, cut, kind, dr), r["viol"], r["summary"], r["steps"]))
     return out
 
@@ -140,6 +183,10 @@ def run(ctx: core.Ctx) -> core.Result:
             for dr in (0.2, 0.7, 2.2):
                 cases.append((role, off, "dribble", dr))
     cases.append(("requestor", -1, "blackhole", None))
+    # a peer that never stops talking while the local side waits for it
+    for role, trigger in (("requestor", "echo-unanswered"), ("acceptor", "second-rq"), ("acceptor", "released")):
+        for straddle in (False, True):
+            cases.append((role, trigger, "chatter", straddle))
     n = core.NPROC * 4
     res = core.pmap(_run, [(cases[i::n],) for i in range(n) if cases[i::n]], seed=ctx.seed)
     viol, seen, steps, outcomes = [], set(), 0, set()
@@ -181,7 +228,7 @@ def _interesting(role):
 
 def replay(ctx, data):
     role, cut, kind, dr = data["case"]
-    r = _blackhole() if kind == "blackhole" else _case(role, cut, kind, dr)
+    r = _chatter(role, cut, dr) if kind == "chatter" else (_blackhole() if kind == "blackhole" else _case(role, cut, kind, dr))
     print(r["why"], r["summary"])
     for k, w in r["viol"]:
         print("VIOLATED:", k, w)
